@@ -43,6 +43,8 @@ func TestVerifSim(t *testing.T) {
 		"C01": scenarioMachine,
 		"C02": scenarioMachine,
 		"C19": scenarioMachine,
+		"C09": scenarioMachine,
+		"C05": scenarioUploadFaults,
 	})
 }
 
@@ -420,6 +422,16 @@ func scenarioMachine(c *hlib.RunCtx) *hlib.Violation {
 	resetWeekMemory()
 	// start on a tape-chosen day in 2024..2026
 	day := refcal.DaysFromCivil(2024, 1, 1) + t.Draw(800)
+	if prop == "C09" {
+		switch t.Draw(3) {
+		case 0:
+			day = refcal.DaysFromCivil(1990, 1, 1) + t.Draw(25567)
+		case 1:
+			day = refcal.DaysFromCivil(1990+t.Draw(70), 12, 20) + t.Draw(20)
+		case 2:
+			day = refcal.DaysFromCivil(1990+t.Draw(70), 2, 20) + t.Draw(12)
+		}
+	}
 	start := time.Unix(int64(day)*86400, 0).UTC().Add(time.Duration(t.Draw(86400)) * time.Second)
 	s := simrt.New(t, c.Dir, start)
 	s.KeepTrace = true
@@ -579,11 +591,39 @@ func (m *machine) runRound(hist *[]string) {
 	}
 	callsBefore := len(s.CallLog)
 	reqsBefore := len(s.Requests)
+	// C09: the run's start time is placed relative to the recorded end of a file.
+	var explicitStart time.Time
+	if m.prop == "C09" {
+		var ends []time.Time
+		for _, mf := range m.roundFiles {
+			if mf.parseable {
+				ends = append(ends, mf.end)
+			}
+		}
+		sort.Slice(ends, func(i, j int) bool { return ends[i].Before(ends[j]) })
+		if len(ends) > 0 {
+			e := ends[t.Draw(len(ends))]
+			switch t.Draw(5) {
+			case 0:
+				explicitStart = e
+			case 1:
+				explicitStart = e.Add(-time.Nanosecond)
+			case 2:
+				explicitStart = e.Add(time.Nanosecond)
+			case 3:
+				explicitStart = e.Add(time.Duration(t.Draw(48)) * time.Hour)
+			}
+			if !explicitStart.IsZero() {
+				m.roundStart = explicitStart
+				m.s.Probe("explicit-start-time")
+			}
+		}
+	}
 	var tasks []*simrt.Task
 	for i := 0; i < nup; i++ {
 		p := s.NewProc(fmt.Sprintf("uploader-r%d-%d", m.round, i), nil)
 		tk := s.Spawn(p, p.Name, func() {
-			upload.Run(upload.RunConfig{TelemetryDir: m.tele, UploadURL: uploadURL})
+			upload.Run(upload.RunConfig{TelemetryDir: m.tele, UploadURL: uploadURL, StartTime: explicitStart})
 		})
 		m.uploaderOf[tk] = m.round
 		tasks = append(tasks, tk)
